@@ -18,6 +18,10 @@ type Hop struct {
 	C     int  `json:"c"`     // 0..2 -> P1..P3
 	Flags int  `json:"flags"` // requested flags for this call
 	Safe  bool `json:"safe"`
+	// Token: the call into P1 (C must be 0) is made by a CALLT of contract TH whose method token carries Flags as
+	// the token's call flags; TH itself is entered through System.Contract.Call requesting the flags Enter.
+	Token bool `json:"token,omitempty"`
+	Enter int  `json:"enter,omitempty"`
 }
 
 // ChainCase is entry(All) -> hop1 -> ... -> hopN whose last hop executes the leaf action.
@@ -62,6 +66,22 @@ func genChainCase(t *rapid.T) ChainCase {
 		}
 		c.Hops = append(c.Hops, Hop{C: uniform(t, 3, "contract"), Flags: f, Safe: uniform(t, 6, "safe") == 0})
 	}
+	// Every third chain makes the hops that can be expressed as a method token of TH go through CALLT.
+	if uniform(t, 3, "tokens") == 0 {
+		for i := range c.Hops {
+			if slices.Contains(thMethods, hopMethodName(c, i)) && rapid.Bool().Draw(t, "token") {
+				c.Hops[i].Token, c.Hops[i].C = true, 0
+				switch uniform(t, 4, "enter") {
+				case 0:
+					c.Hops[i].Enter = uniform(t, 16, "enterflags")
+				case 1: // TH holds only part of what CALLT needs
+					c.Hops[i].Enter = (needCall | uniform(t, 16, "enterextra")) &^ pick(t, []int{fRead, fCall}, "enterdrop")
+				default:
+					c.Hops[i].Enter = fAll
+				}
+			}
+		}
+	}
 	return c
 }
 
@@ -94,6 +114,12 @@ func chainSpec(c ChainCase) (leafFlags int, reached bool) {
 		if eff&needCall != needCall {
 			return 0, false
 		}
+		if h.Token { // first into TH, which then needs the right to call for its CALLT
+			eff &= h.Enter
+			if eff&needCall != needCall {
+				return 0, false
+			}
+		}
 		eff &= h.Flags
 		if h.Safe {
 			eff &= fReadOnly
@@ -105,20 +131,30 @@ func chainSpec(c ChainCase) (leafFlags int, reached bool) {
 func (w *world) chainScript(c ChainCase) ([]byte, []util.Uint160) {
 	// path elements for hops 2..n, then [P4] as the argument of the leaf
 	var path []any
-	for i := 1; i < len(c.Hops); i++ {
+	link := func(i int) (util.Uint160, int, string) {
 		h := c.Hops[i]
-		path = append(path, []any{hb(w.ps[h.C].Hash), int64(h.Flags), w.hopMethod(c, i)})
+		if h.Token {
+			return w.th.Hash, h.Enter, thMethod(hopMethodName(c, i), h.Flags)
+		}
+		return w.ps[h.C].Hash, h.Flags, hopMethodName(c, i)
+	}
+	for i := 1; i < len(c.Hops); i++ {
+		hash, f, m := link(i)
+		path = append(path, []any{hb(hash), int64(f), m})
 	}
 	path = append(path, hb(w.ps[3].Hash))
-	h0 := c.Hops[0]
 	var own []util.Uint160
 	for _, h := range c.Hops {
 		own = append(own, w.ps[h.C].Hash)
+		if h.Token {
+			own = append(own, w.th.Hash)
+		}
 	}
-	return appCall(w.ps[h0.C].Hash, w.hopMethod(c, 0), callflag.CallFlag(h0.Flags), path), own
+	hash, f, m := link(0)
+	return appCall(hash, m, callflag.CallFlag(f), path), own
 }
 
-func (w *world) hopMethod(c ChainCase, i int) string {
+func hopMethodName(c ChainCase, i int) string {
 	if i == len(c.Hops)-1 {
 		return leafMethod(c.Action, c.Try, c.Hops[i].Safe)
 	}
@@ -159,9 +195,12 @@ func checkChainCase(c ChainCase, o *vt.Obs) error {
 	if len(c.Hops) < 1 || len(c.Hops) > 4 || !slices.Contains(leafActions, c.Action) {
 		return nil
 	}
-	for _, h := range c.Hops {
-		if h.C < 0 || h.C > 2 || h.Flags < 0 || h.Flags > 15 {
+	for i, h := range c.Hops {
+		if h.C < 0 || h.C > 2 || h.Flags < 0 || h.Flags > 15 || h.Enter < 0 || h.Enter > 15 {
 			return nil
+		}
+		if h.Token && (h.C != 0 || !slices.Contains(thMethods, hopMethodName(c, i))) {
+			return nil // not expressible as a token of TH
 		}
 	}
 	script, own := w.chainScript(c)
@@ -221,9 +260,13 @@ func checkChainCase(c ChainCase, o *vt.Obs) error {
 	// Classification.
 	o.Labelf("len-%d", len(c.Hops))
 	o.Label("action/" + c.Action)
-	anySafe := false
+	anySafe, anyToken := false, false
 	for _, h := range c.Hops {
 		anySafe = anySafe || h.Safe
+		anyToken = anyToken || h.Token
+	}
+	if anyToken {
+		o.Label("with-token-hop")
 	}
 	if anySafe {
 		o.Label("with-safe-hop")
@@ -241,11 +284,15 @@ func checkChainCase(c ChainCase, o *vt.Obs) error {
 	if !enough && needs(c.Action) != 0 {
 		for i := range c.Hops {
 			for bit := 1; bit < 16; bit <<= 1 {
-				if c.Hops[i].Flags&bit != 0 {
+				if c.Hops[i].Flags&bit != 0 && !(c.Hops[i].Token && c.Hops[i].Enter&bit == 0) {
 					continue
 				}
 				d := ChainCase{Hops: slices.Clone(c.Hops), Action: c.Action, Try: c.Try}
-				d.Hops[i].Flags |= bit
+				if !c.Hops[i].Token || c.Hops[i].Enter&needCall == needCall {
+					d.Hops[i].Flags |= bit
+				} else {
+					d.Hops[i].Enter |= bit
+				}
 				if lf, r := chainSpec(d); r && lf&needs(c.Action) == needs(c.Action) {
 					// confirm by execution: the same chain with that single flag added succeeds with the effect
 					script, own := w.chainScript(d)
@@ -291,7 +338,11 @@ func describeChain(c ChainCase) string {
 		if h.Safe {
 			m = "safe:" + m
 		}
-		s += fmt.Sprintf(" -(%s)-> P%d.%s", flagName(h.Flags), h.C+1, m)
+		if h.Token {
+			s += fmt.Sprintf(" -(%s)-> TH =CALLT[token flags %s]=> P%d.%s", flagName(h.Enter), flagName(h.Flags), h.C+1, m)
+		} else {
+			s += fmt.Sprintf(" -(%s)-> P%d.%s", flagName(h.Flags), h.C+1, m)
+		}
 	}
 	return s
 }
